@@ -1,10 +1,11 @@
 (* C08 — witnesses captured from the running walker (harness/c08.py, function case_term): the template tree
-   rope built for the source text, the regular-expression results, and rope's annotated tree.
-   F0 / F / K / P / OC are the short forms defined in Runner.v.  Captured at /repo commit ed573d7 (after
-   the repairs); the template tree of w_escape is the same before and after the repair. *)
+   rope built for the source text, the regular-expression results, rope's annotated tree, and CPython's ast
+   when all its nodes belong to the transcribed table.  F0 / F / K / P / OC are short forms (Runner.v,
+   Fragment.v).  Captured at /repo commit e95d065; the template tree of w_escape is the same before and
+   after the repair ed573d7. *)
 From Coq Require Import List NArith Bool String.
 Import ListNotations.
-From RopeVerif.C08 Require Import Template Runner.
+From RopeVerif.C08 Require Import Template Fragment Runner.
 Local Open Scope N_scope.
 Local Open Scope list_scope.
 
@@ -16,18 +17,33 @@ if x:  # else:
     y = (1,
          2)
 ");
-   k_tree := (TNode 73 (F false true false false) [ISub (TNode 5 F0 [ISub (TNode 75 F0 [K "x"]); K "="; ISub (TNode 14 F0 [ISub (TNode 9 F0 [ISub (TNode 75 F0 [K "a"]); K "."; K "b"]); K "+"; ISub (TNode 20 F0 [ISub (TNode 75 F0 [K "f"]); K "("; ISub (TNode 23 F0 [IRegex [(21, Some (21, 22))]]); K ","; ISub (TNode 23 F0 [IRegex [(23, Some (24, 30))]]); K ")"])])]); ISub (TNode 44 F0 [K "if"; ISub (TNode 75 F0 [K "x"]); K ":"; ISub (TNode 5 F0 [ISub (TNode 75 F0 [K "y"]); K "="; ISub (TNode 99 (F true false false false) [ISub (TNode 23 F0 [IRegex [(59, Some (61, 62))]]); K ","; ISub (TNode 23 F0 [IRegex [(63, Some (73, 74))]])])])])]);
-   k_rope := Ok (PNode 73 0 0 76 [P "# c (
-"; PN (PNode 5 0 6 31 [PN (PNode 75 0 6 7 [P "x"]); P " "; P "="; P " "; PN (PNode 14 9 10 31 [P "("; PN (PNode 9 9 11 15 [PN (PNode 75 9 11 12 [P "a"]); PT []; P "."; P " "; P "b"]); P ") "; P "+"; P " "; PN (PNode 20 18 19 31 [PN (PNode 75 18 19 20 [P "f"]); PT []; P "("; PT []; PN (PNode 23 21 21 22 [P "1"]); PT []; P ","; P " "; PN (PNode 23 23 24 30 [P "'if #'"]); PT []; P ")"])])]); P "  # )
-"; PN (PNode 44 31 37 75 [P "if"; P " "; PN (PNode 75 39 40 41 [P "x"]); PT []; P ":"; P "  # else:
-    "; PN (PNode 5 42 56 75 [PN (PNode 75 42 56 57 [P "y"]); P " "; P "="; P " "; PN (PNode 99 59 60 75 [P "("; PT []; PN (PNode 23 59 61 62 [P "1"]); PT []; P ","; P "
-         "; PN (PNode 23 63 73 74 [P "2"]); PT []; P ")"])])]); P "
-"]) |}.
+   k_tree := (TNode 1 (F false true false false) [ISub (TNode 14 F0 [ISub (TNode 3 F0 [K "x"]); K "="; ISub (TNode 6 F0 [ISub (TNode 4 F0 [ISub (TNode 3 F0 [K "a"]); K "."; K "b"]); K "+"; ISub (TNode 5 F0 [ISub (TNode 3 F0 [K "f"]); K "("; ISub (TNode 13 F0 [IRegex [(21, Some (21, 22))]]); K ","; ISub (TNode 13 F0 [IRegex [(23, Some (24, 30))]]); K ")"])])]); ISub (TNode 16 F0 [K "if"; ISub (TNode 3 F0 [K "x"]); K ":"; ISub (TNode 14 F0 [ISub (TNode 3 F0 [K "y"]); K "="; ISub (TNode 11 (F true false false false) [ISub (TNode 13 F0 [IRegex [(59, Some (61, 62))]]); K ","; ISub (TNode 13 F0 [IRegex [(63, Some (73, 74))]])])])])]);
+   k_rope := Ok (PNode 1 0 0 76 [P "# c (
+"; PN (PNode 14 0 6 31 [PN (PNode 3 0 6 7 [P "x"]); P " "; P "="; P " "; PN (PNode 6 9 10 31 [P "("; PN (PNode 4 9 11 15 [PN (PNode 3 9 11 12 [P "a"]); PT []; P "."; P " "; P "b"]); P ") "; P "+"; P " "; PN (PNode 5 18 19 31 [PN (PNode 3 18 19 20 [P "f"]); PT []; P "("; PT []; PN (PNode 13 21 21 22 [P "1"]); PT []; P ","; P " "; PN (PNode 13 23 24 30 [P "'if #'"]); PT []; P ")"])])]); P "  # )
+"; PN (PNode 16 31 37 75 [P "if"; P " "; PN (PNode 3 39 40 41 [P "x"]); PT []; P ":"; P "  # else:
+    "; PN (PNode 14 42 56 75 [PN (PNode 3 42 56 57 [P "y"]); P " "; P "="; P " "; PN (PNode 11 59 60 75 [P "("; PT []; PN (PNode 13 59 61 62 [P "1"]); PT []; P ","; P "
+         "; PN (PNode 13 63 73 74 [P "2"]); PT []; P ")"])])]); P "
+"]);
+   k_ast := (Some (AModule [(AAssign [(AName (T "x"))] (ABin (AAttr (AName (T "a")) (T "b")) (op_tokens 3) (ACall (AName (T "f")) [AConstRegex; AConstRegex]))); (AIf false (AName (T "x")) [(AAssign [(AName (T "y"))] (ATuple [AConstRegex; AConstRegex]))] [] false)])) |}.
 
 (* source: 'x = f("#", (a).b)\n' *)
 Definition w_escape : case :=
  {| k_opt := OC; k_src := (T "x = f(""#"", (a).b)
 ");
-   k_tree := (TNode 73 (F false true false false) [ISub (TNode 5 F0 [ISub (TNode 75 F0 [K "x"]); K "="; ISub (TNode 20 F0 [ISub (TNode 75 F0 [K "f"]); K "("; ISub (TNode 23 F0 [IRegex [(6, Some (6, 9))]]); K ","; ISub (TNode 9 F0 [ISub (TNode 75 F0 [K "a"]); K "."; K "b"]); K ")"])])]);
-   k_rope := Ok (PNode 73 0 0 18 [PT []; PN (PNode 5 0 0 17 [PN (PNode 75 0 0 1 [P "x"]); P " "; P "="; P " "; PN (PNode 20 3 4 17 [PN (PNode 75 3 4 5 [P "f"]); PT []; P "("; PT []; PN (PNode 23 6 6 9 [P """#"""]); PT []; P ","; P " "; PN (PNode 9 10 11 16 [P "("; PN (PNode 75 10 12 13 [P "a"]); P ")"; P "."; PT []; P "b"]); PT []; P ")"])]); P "
-"]) |}.
+   k_tree := (TNode 1 (F false true false false) [ISub (TNode 14 F0 [ISub (TNode 3 F0 [K "x"]); K "="; ISub (TNode 5 F0 [ISub (TNode 3 F0 [K "f"]); K "("; ISub (TNode 13 F0 [IRegex [(6, Some (6, 9))]]); K ","; ISub (TNode 4 F0 [ISub (TNode 3 F0 [K "a"]); K "."; K "b"]); K ")"])])]);
+   k_rope := Ok (PNode 1 0 0 18 [PT []; PN (PNode 14 0 0 17 [PN (PNode 3 0 0 1 [P "x"]); P " "; P "="; P " "; PN (PNode 5 3 4 17 [PN (PNode 3 3 4 5 [P "f"]); PT []; P "("; PT []; PN (PNode 13 6 6 9 [P """#"""]); PT []; P ","; P " "; PN (PNode 4 10 11 16 [P "("; PN (PNode 3 10 12 13 [P "a"]); P ")"; P "."; PT []; P "b"]); PT []; P ")"])]); P "
+"]);
+   k_ast := (Some (AModule [(AAssign [(AName (T "x"))] (ACall (AName (T "f")) [AConstRegex; (AAttr (AName (T "a")) (T "b"))]))])) |}.
+
+(* source: '# top (\nf ( a . b # c )\n  , x ) + y  # end\n' *)
+Definition w_frag : case :=
+ {| k_opt := OC; k_src := (T "# top (
+f ( a . b # c )
+  , x ) + y  # end
+");
+   k_tree := (TNode 1 (F false true false false) [ISub (TNode 2 F0 [ISub (TNode 6 F0 [ISub (TNode 5 F0 [ISub (TNode 3 F0 [K "f"]); K "("; ISub (TNode 4 F0 [ISub (TNode 3 F0 [K "a"]); K "."; K "b"]); K ","; ISub (TNode 3 F0 [K "x"]); K ")"]); K "+"; ISub (TNode 3 F0 [K "y"])])])]);
+   k_rope := Ok (PNode 1 0 0 43 [P "# top (
+"; PN (PNode 2 0 8 35 [PN (PNode 6 0 8 35 [PN (PNode 5 0 8 31 [PN (PNode 3 0 8 9 [P "f"]); P " "; P "("; P " "; PN (PNode 4 11 12 17 [PN (PNode 3 11 12 13 [P "a"]); P " "; P "."; P " "; P "b"]); P " # c )
+  "; P ","; P " "; PN (PNode 3 27 28 29 [P "x"]); P " "; P ")"]); P " "; P "+"; P " "; PN (PNode 3 33 34 35 [P "y"])])]); P "  # end
+"]);
+   k_ast := (Some (AModule [(AExpr (ABin (ACall (AName (T "f")) [(AAttr (AName (T "a")) (T "b")); (AName (T "x"))]) (op_tokens 3) (AName (T "y"))))])) |}.
